@@ -64,8 +64,7 @@ Seeds == SeedLeaves \cup SeedContainers \cup SeedRecords \cup SeedNamed
 (* the quick tier explores two steps only from these *)
 QuickDeepSeeds ==
   { PrimS("long"), E3, Un(<<PrimS("null"), PrimS("int")>>),
-    Rc("ns.R2", <<F("a", PrimS("int")), F("b", PrimS("string"))>>),
-    Rc("ns.RN", <<F("a", Fx("ns.N", 2)), F("b", RefS("ns.N"))>>) }
+    Rc("ns.R2", <<F("a", PrimS("int")), F("b", PrimS("string"))>>) }
 
 RThin(s) ==
   CASE s.k \in IntKinds -> {[t |-> s.k, n |-> x] : x \in {NegNatToLE8(1), NatToLE8(16777217)}}
